@@ -197,11 +197,18 @@ def check(ctx: Ctx) -> list[RuleResult]:
             r3.fail(f"parser_{code.lower()}:missing", repo.mod(PM).rel, f"array code {code} has no parser")
             continue
         want = 2 * spec[0]
-        branches = [st for st in pf.node.body if isinstance(st, ast.If) and any(isinstance(n, ast.Attribute) and n.attr == "_has_array" for n in ast.walk(st.test))]
+        # the array walk: every 3-argument range() that runs where `<msg>._has_array` is known true - inside the `if`, or after an
+        # `if not <msg>._has_array: return ...` (either way round)
+        from .common import known_at as _known_at
+
+        arr_exprs = sorted({norm(n) for n in own_nodes(pf.node) if isinstance(n, ast.Attribute) and n.attr == "_has_array"})
         steps = []
-        for b in branches:
-            for n in ast.walk(b):
-                if isinstance(n, ast.Call) and norm(n.func) == "range" and len(n.args) == 3:
+        for n in own_nodes(pf.node):
+            if isinstance(n, ast.Call) and norm(n.func) == "range" and len(n.args) == 3:
+                st = n
+                while not isinstance(st, ast.stmt):
+                    st = st.parent  # type: ignore[attr-defined]
+                if any(_known_at(st, ae, pf.node) for ae in arr_exprs):
                     steps.append(ctx.consts.eval_in(pf, n.args[2]))
         if steps and all(s == want for s in steps):
             r3.ok({"code": code, "element_bytes": spec[0], "step": want})
